@@ -130,6 +130,7 @@ func runC06(c *Ctx) {
 		n = 120000
 	}
 	r := c.Rng
+	defer laggingCounters(c, "C06")
 	var prevTK []byte
 	var prev *ktuple
 	for it := 0; it < n; it++ {
